@@ -460,6 +460,9 @@ pub struct YamlSerializer<'a, W: Write> {
     /// If the previous sequence element after a dash turned out to be a mapping (inline first key),
     /// indent subsequent dashes by one level to satisfy tests expecting "\n  -".
     inline_map_after_dash: bool,
+    /// Set while a composite mapping key is being written in block layout: an enum variant with a
+    /// payload in that position is written as a one-entry flow mapping (`? {Variant: ...}`).
+    composite_key_variant_flow: bool,
     /// Whether the last serialized value was a block collection (map or sequence).
     last_value_was_block: bool,
     /// If a sequence element starts with a dash on this depth, capture that depth so
@@ -505,6 +508,7 @@ impl<'a, W: Write> YamlSerializer<'a, W> {
             pending_inline_map: false,
             pending_space_after_colon: false,
             inline_map_after_dash: false,
+            composite_key_variant_flow: false,
             last_value_was_block: false,
             after_dash_depth: None,
             current_map_depth: None,
@@ -1314,14 +1318,16 @@ impl<'a, 'b, W: Write> Serializer for &'a mut YamlSerializer<'b, W> {
         variant: &'static str,
         value: &T,
     ) -> Result<()> {
-        if self.in_flow > 0 {
-            // Inside a flow collection the variant is a one-entry flow mapping.
+        let key_flow = std::mem::take(&mut self.composite_key_variant_flow);
+        if self.in_flow > 0 || key_flow {
+            // Inside a flow collection (or as a composite key) the variant is a one-entry
+            // flow mapping.
             self.write_space_if_pending()?;
             self.out.write_str("{")?;
             self.write_plain_or_quoted(variant)?;
             self.out.write_str(": ")?;
             self.at_line_start = false;
-            value.serialize(&mut *self)?;
+            self.with_in_flow(|s| value.serialize(s))?;
             self.out.write_str("}")?;
             return Ok(());
         }
@@ -1526,13 +1532,16 @@ impl<'a, 'b, W: Write> Serializer for &'a mut YamlSerializer<'b, W> {
         variant: &'static str,
         _len: usize,
     ) -> Result<Self::SerializeTupleVariant> {
-        if self.in_flow > 0 {
-            // Inside a flow collection: `{Variant: [a, b]}`.
+        let key_flow = std::mem::take(&mut self.composite_key_variant_flow);
+        if self.in_flow > 0 || key_flow {
+            // Inside a flow collection (or as a composite key): `{Variant: [a, b]}`.
             self.write_space_if_pending()?;
             self.out.write_str("{")?;
             self.write_plain_or_quoted(variant)?;
             self.out.write_str(": [")?;
             self.at_line_start = false;
+            // The fields are written in flow context until `end`.
+            self.in_flow += 1;
             let depth = self.depth;
             return Ok(TupleVariantSer {
                 ser: self,
@@ -1694,13 +1703,16 @@ impl<'a, 'b, W: Write> Serializer for &'a mut YamlSerializer<'b, W> {
         variant: &'static str,
         _len: usize,
     ) -> Result<Self::SerializeStructVariant> {
-        if self.in_flow > 0 {
-            // Inside a flow collection: `{Variant: {a: 1, b: 2}}`.
+        let key_flow = std::mem::take(&mut self.composite_key_variant_flow);
+        if self.in_flow > 0 || key_flow {
+            // Inside a flow collection (or as a composite key): `{Variant: {a: 1, b: 2}}`.
             self.write_space_if_pending()?;
             self.out.write_str("{")?;
             self.write_plain_or_quoted(variant)?;
             self.out.write_str(": {")?;
             self.at_line_start = false;
+            // The fields are written in flow context until `end`.
+            self.in_flow += 1;
             let depth = self.depth;
             return Ok(StructVariantSer {
                 ser: self,
@@ -2147,6 +2159,7 @@ impl<'a, 'b, W: Write> SerializeTupleVariant for TupleVariantSer<'a, 'b, W> {
     }
     fn end(self) -> Result<()> {
         if self.flow {
+            self.ser.in_flow -= 1;
             self.ser.out.write_str("]}")?;
             return Ok(());
         }
@@ -2270,7 +2283,15 @@ impl<'a, 'b, W: Write> SerializeMap for MapSer<'a, 'b, W> {
                         }
                     } else {
                         self.ser.pending_inline_map = true;
-                        key.serialize(&mut *self.ser)?;
+                        // Block layout; an enum variant with a payload cannot be laid out as a
+                        // block key and is written as a one-entry flow mapping instead.
+                        self.ser.composite_key_variant_flow = true;
+                        let res = key.serialize(&mut *self.ser);
+                        self.ser.composite_key_variant_flow = false;
+                        res?;
+                        if !self.ser.at_line_start {
+                            self.ser.newline()?;
+                        }
                     }
 
                     self.ser.depth = saved_depth;
@@ -2434,6 +2455,7 @@ impl<'a, 'b, W: Write> SerializeStructVariant for StructVariantSer<'a, 'b, W> {
     }
     fn end(self) -> Result<()> {
         if self.flow {
+            self.ser.in_flow -= 1;
             self.ser.out.write_str("}}")?;
         }
         Ok(())
